@@ -168,11 +168,15 @@ def configs(tier):
             for m in (MODELS[1:] if surf else [""]):
                 for b in single_backends:
                     out.append({"formats": [f], "model": m, "backend": b, "shielding": {}, "cooling": [], "grainspec": True, "only": tag})
+    # networks without atomic hydrogen, every back-end, with and without the thermal equation
+    for b in BACKENDS:
+        for th in ([], ["CIC_HeI"]):
+            out.append({"formats": ["kida"], "model": "", "backend": b, "shielding": {}, "cooling": th, "grainspec": False, "noH": True})
     return out
 
 
 NAME_DIAG = re.compile(r"(was not declared in this scope|has not been declared|redeclaration of|redefinition of|conflicting declaration|previous declaration|previously declared|previously defined|is not a member of|has no member named)")
-SHIM_NAME = re.compile(r"^(SUN|N_V|CV|SM_|sun|boost|std|ublas|integrate_|make_|rosenbrock|realtype|booleantype|cuda|cusparse|cusolver|VERIF_|verif_|blockIdx|blockDim|threadIdx|gridDim)")
+SHIM_NAME = re.compile(r"^(pybind11|py::|PYBIND|SUN|N_V|CV|SM_|sun|boost|std|ublas|integrate_|make_|rosenbrock|realtype|booleantype|cuda|cusparse|cusolver|VERIF_|verif_|blockIdx|blockDim|threadIdx|gridDim)")
 
 
 def build_network(cfg):
@@ -189,6 +193,12 @@ def build_network(cfg):
     for fmt in cfg["formats"]:
         for ln, tag in probe_lines(fmt, cfg["grainspec"]):
             lines.append((ln, fmt, tag))
+    if cfg.get("noH"):
+        # a network without atomic hydrogen (no IDX_ELEM_H: the renormalisation members of Naunet are compiled out)
+        kw["required_species"] = ["He"] + (["e-", "He+"] if cfg["cooling"] else [])
+        if cfg["cooling"]:
+            kw["cooling"] = ["CIC_HeI"]
+        lines = [(F.enc_kida(ar(["He"], ["He+", "e-"], 0.5, 0.0, 0.0, code=1, marker="CR", idx=1)), "kida", "kida:noH")]
     if cfg.get("only"):
         # single-line probe: the directives of the file and exactly one data line
         lines = [t for t in lines if t[0].startswith("@") or t[2] == cfg["only"]]
@@ -234,7 +244,7 @@ def run_cfg(cfg):
 
     reset_globals()
     viols = []
-    label = (f"only {cfg['only']}|" if cfg.get("only") else "") + f"{'+'.join(cfg['formats'])}|{cfg['model'] or 'none'}|{cfg['backend']}|sh={','.join(sorted(cfg['shielding'])) or '-'}|th={'on' if cfg['cooling'] else 'off'}|gs={int(cfg['grainspec'])}"
+    label = ("no-H|" if cfg.get("noH") else "") + (f"only {cfg['only']}|" if cfg.get("only") else "") + f"{'+'.join(cfg['formats'])}|{cfg['model'] or 'none'}|{cfg['backend']}|sh={','.join(sorted(cfg['shielding'])) or '-'}|th={'on' if cfg['cooling'] else 'off'}|gs={int(cfg['grainspec'])}"
     try:
         net, refused, err = build_network(cfg)
     except HarnessError:
@@ -266,11 +276,12 @@ def run_cfg(cfg):
                     new_rel = rel[:-3] + "_cu.cpp"
                     (d / new_rel).write_text("#include <algorithm>\nusing std::min; using std::max;\n" + txt)
                     files[new_rel] = txt
-        for rel in sorted(files):
-            if not (rel.startswith("src/") and rel.endswith(".cpp")):
-                continue
+        units = [(rel, []) for rel in sorted(files) if rel.startswith("src/") and rel.endswith(".cpp")]
+        # the python-module build (-DPYMODULE) of the driver: the pybind11 block names members of Naunet / NaunetData
+        units += [(rel, ["-DPYMODULE", "-DPYMODNAME=pymod"]) for rel, _ in list(units) if rel.endswith("src/naunet.cpp")]
+        for rel, defs in units:
             nfiles += 1
-            rc, so, se = runcmd([GXX, "-std=c++17", "-fsyntax-only", "-w", "-fmax-errors=0", "-fdiagnostics-plain-output", *cuda, "-I", str(SHIM), "-I", "include", rel], cwd=str(d), timeout=300)
+            rc, so, se = runcmd([GXX, "-std=c++17", "-fsyntax-only", "-w", "-fmax-errors=0", "-fdiagnostics-plain-output", *cuda, *defs, "-I", str(SHIM), "-I", "include", rel], cwd=str(d), timeout=300)
             if rc == 0:
                 continue
             seen = set()
@@ -320,7 +331,7 @@ def run(ctx):
     ctx.assumptions += [
         "the SUNDIALS/Boost API is a hand-written shim (no SUNDIALS/Boost in the image); a diagnostic naming a shim/libc identifier is a harness error, never a violation",
         "only diagnostics about undeclared / redeclared / redefined names are judged here; other compiler errors are counted (other_diagnostics) and belong to C05/C16",
-        "pybind11 wrapper blocks (PYMODULE) are not compiled; the cuSPARSE sources are checked as host C++ (CUDA qualifiers defined away, kernel launches rewritten to a launcher call, CUDA/cuSPARSE API names from the shim)",
+        "the pybind11 block of naunet.h / naunet.cpp is type-checked with -DPYMODULE against a stand-in for pybind11 (every &Class::member named in a .def must exist); the cuSPARSE sources are checked as host C++ (CUDA qualifiers defined away, kernel launches rewritten to a launcher call, CUDA/cuSPARSE API names from the shim)",
         "combinations the generator refuses in Python (reaction type not implemented by the grain model) are recorded as refused and left out of the probe network",
     ]
     return {
